@@ -5,11 +5,16 @@ SPEC = {
          "harness": ["verifsys/doc.go", "verifsys/common_*.go", "verifsys/c05_*.go", "verifsys/c11_*.go", "home/routes.go"],
          "binary": {"race": False}, "compile_then_run": True,
          "timeout_quick": 900, "timeout_thorough": 3000},
+        # A logged-out cookie must stay refused although a request with it was
+        # in flight during the logout (harness shared with C12).
+        {"name": "logoutrace", "pkg": "./internal/home/", "run": "^TestVerifC12LogoutRace$",
+         "harness": ["home/c12_logoutrace_test.go"], "race": True,
+         "timeout_quick": 600, "timeout_thorough": 1800, "env": {"VERIF_AUTH_PROP": "C11"}},
     ],
 }
 
 CLAIM = {
-    "text": "The route table is taken from the running program: a verif-tagged overlay file walks the live admin ServeMux by reflection and dumps every registered pattern (cross-checked against every HTTPRegister/httpRegister call and '/control/...' literal in the source; a registered path missing from the dump makes the run inconclusive). For every dumped route the monitor sends raw HTTP/1.1 requests (request target exactly as spelled) over all methods x content types x bodies x credential shapes (none, unknown/malformed/empty/expired/logged-out cookie, token with suffix, wrong/empty/unknown basic, bad cookie + right basic, valid cookie, valid basic) and path spellings that normalise to the route (doubled slash, dot and dot-dot segments, encoded dot-dot, /login.html/.. and /assets/.. prefixes, CONNECT without path cleaning). Oracle: without valid credentials a non-public route answers only 403 (302 to login.html for / and /index.html; the mux's own redirect or 400 for non-canonical spellings) and an authenticated state digest (15 GET endpoints + config file + lease file) is unchanged after the burst; with valid credentials nothing is 403, a wrong method is 405 and a non-JSON body on a mutating endpoint is 415. Further phases: an instance whose administrator is created at run time through the first-run API (swept without a restart), login attempts with unknown users / empty passwords, and an instance started on an unopenable sessions.db (either the start fails or every protected route still refuses).",
+    "text": "The route table is taken from the running program: a verif-tagged overlay file walks the live admin ServeMux by reflection and dumps every registered pattern (cross-checked against every HTTPRegister/httpRegister call and '/control/...' literal in the source; a registered path missing from the dump makes the run inconclusive). For every dumped route the monitor sends raw HTTP/1.1 requests (request target exactly as spelled) over all methods x content types x bodies x credential shapes (none, unknown/malformed/empty/expired/logged-out cookie, token with suffix, wrong/empty/unknown basic, bad cookie + right basic, valid cookie, valid basic) and path spellings that normalise to the route (doubled slash, dot and dot-dot segments, encoded dot-dot, /login.html/.. and /assets/.. prefixes, CONNECT without path cleaning). Oracle: without valid credentials a non-public route answers only 403 (302 to login.html for / and /index.html; the mux's own redirect or 400 for non-canonical spellings) and an authenticated state digest (15 GET endpoints + config file + lease file) is unchanged after the burst; with valid credentials nothing is 403, a wrong method is 405 and a non-JSON body on a mutating endpoint is 415. Further phases: an instance whose administrator is created at run time through the first-run API (swept without a restart), login attempts with unknown users / empty passwords, and an instance started on an unopenable sessions.db (either the start fails or every protected route still refuses). A package-level part races authenticated requests (taking the once-a-day expiry prolongation) against the logout of the same cookie: after both returned the cookie must be refused, also after a restart.",
     "note": "Expired cookie is produced by running the binary once with session_ttl 2s. Mutating handlers are never run with valid credentials and a well-formed request. Trusted: net/http request parsing on the client side of the raw socket.",
     "technique": "runtime monitor: live route dump (reflection hook) + exhaustive request-shape sweep against the real binary",
 }
